@@ -30,7 +30,7 @@ func (g *Group) isNull(f *File) bool {
 
 func (g *Group) isNullItems(f *File) bool {
 	for _, c := range g.items {
-		if !c.isNull(f) {
+		if c != nil && !c.isNull(f) {
 			return false
 		}
 	}
@@ -48,7 +48,7 @@ func (g *Group) render(f *File, w io.Writer, s *Statement) error {
 		prev := s.previous(g)
 		grp, isGrp := prev.(*Group)
 		tkn, isTkn := prev.(token)
-		if isGrp && grp.name == "case" || isTkn && tkn.content == "default" {
+		if isGrp && grp != nil && grp.name == "case" || isTkn && tkn.content == "default" {
 			g.open = ""
 			g.close = ""
 		}
